@@ -739,16 +739,16 @@ def falsifier_stage(ctx):
     for i in range(ctx.n(2, 10)):      # reordering without bad atoms
         det.append(gen_det_case(ctx.rng, kinds2[i % 5], [3, 4][i % 2], jump=True, reorder=True))
     if ctx.thorough():
-        plan = [("relaxation", 2, 2500), ("dephasing", 2, 2500), ("depolarizing", 2, 2500), ("effective", 2, 2500),
-                ("leakage", 2, 2500), ("mixed", 2, 500), ("mixed", 3, 300), ("leakage", 3, 300), ("relaxation", 4, 300),
+        plan = [("relaxation", 2, 2000), ("dephasing", 2, 2000), ("depolarizing", 2, 2000), ("effective", 2, 2000),
+                ("leakage", 2, 2000), ("mixed", 2, 500), ("mixed", 3, 300), ("leakage", 3, 300), ("relaxation", 4, 300),
                 ("effective", 3, 300)]
     else:
         plan = [("mixed", 2, 600), ("leakage", 2, 600), ("effective", 3, 100)]
     for kind, n, M in plan:
         stat.append(gen_case(ctx.rng, kind, n, M, coarse=(M >= 600)))
     # statistical cases with one badly prepared atom among three (two well-prepared: cheap, exact TDVP step)
-    for i in range(ctx.n(1, 3)):
-        stat.append(gen_case(ctx.rng, ["mixed", "relaxation", "effective"][i], 3, ctx.n(400, 1500), coarse=True,
+    for i in range(ctx.n(1, 2)):
+        stat.append(gen_case(ctx.rng, ["mixed", "relaxation", "effective"][i], 3, ctx.n(400, 1000), coarse=True,
                              bad=gen_bad_mask(ctx.rng, 3), reorder=(i == 1)))
     worst_det, njump_hist = {}, {}
     for c in det:
